@@ -430,6 +430,12 @@ class Bundle:
             # ask info): handed a field of another type it answers wrongly
             def type_default(root, ctx, info, **kwargs):
                 fname = info.field_definition.name
+                if info.parent_type.name != tname:
+                    # this is the resolver of ANOTHER type
+                    ctx.count("type_default_asked_about_foreign_type")
+                    raise ResolverError(
+                        "default resolver of %s asked about %s.%s" % (
+                            tname, info.parent_type.name, fname))
                 if behaviours.get((tname, fname)) != "tdefault":
                     # a field meant for the library's default resolver
                     return _lib_default_resolver(root, ctx, info, **kwargs)
